@@ -142,6 +142,8 @@ class FormulaExt(Extension):
         self.table = class_table()
 
     def global_name(self, E, k, name):
+        if k.hints.get('ext') == 'sem':
+            return None
         if name in ('CTLS', 'sys', 'CTL', 'LTL'):
             return SV('module', None, name)
         if name == 'Bool':
@@ -151,6 +153,8 @@ class FormulaExt(Extension):
         return None
 
     def attribute(self, E, ex, base, attr, path, node):
+        if ex.k.hints.get('ext') == 'sem':
+            return None
         if base.ty == 'module':
             if base.x == 'sys' and attr == 'modules':
                 return SV('sysmodules')
@@ -171,16 +175,22 @@ class FormulaExt(Extension):
         return None
 
     def subscript(self, E, ex, base, idx, path, node):
+        if ex.k.hints.get('ext') == 'sem':
+            return None
         if base.ty == 'sysmodules':
             return SV('module', None, 'Lang')
         return None
 
     def equal(self, E, ex, a, b, path, node):
+        if ex.k.hints.get('ext') == 'sem':
+            return None
         if a.ty == 'F' and b.ty == 'F':
             return a.t == b.t
         return None
 
     def isinstance(self, E, ex, a, cls, path, node):
+        if ex.k.hints.get('ext') == 'sem':
+            return None
         if a.ty == 'F':
             if cls.ty == 'func' and cls.x[0] == 'fctor':
                 cls = SV('fclass', None, cls.x[1])
@@ -196,6 +206,8 @@ class FormulaExt(Extension):
         return None
 
     def method(self, E, ex, base, attr, args, kwargs, path, node):
+        if ex.k.hints.get('ext') == 'sem':
+            return None
         if base.ty != 'F':
             return None
         f = base.t
@@ -220,6 +232,8 @@ class FormulaExt(Extension):
         return None
 
     def call_func(self, E, ex, fn, args, kwargs, path, node):
+        if ex.k.hints.get('ext') == 'sem':
+            return None
         if fn.x[0] == 'fctor' and fn.x[1] == 'Bool':
             a = args[0]
             if a.ty != 'bool':
